@@ -77,7 +77,8 @@ class OracleCase:
         return {'search': 'acceptance-oracle', 'params': self.params, 'props': self.props,
                 'prop_seed': self.prop_seed, 'beta': self.beta, 'model': self.model_kind,
                 'blobs': self.blobs, 'holes': self.holes, 'start': self.start, 'steps': self.steps,
-                'seed': self.seed}
+                'seed': self.seed, 'pt_betas': getattr(self, 'pt_betas', None),
+                'pt_swap_interval': getattr(self, 'pt_swap_interval', 1)}
 
     @staticmethod
     def from_description(d):
@@ -88,6 +89,8 @@ class OracleCase:
         for k in ('prop_seed', 'beta', 'blobs', 'start', 'steps', 'seed'):
             setattr(c, k, d[k])
         c.model_kind = d['model']
+        c.pt_betas = d.get('pt_betas')
+        c.pt_swap_interval = d.get('pt_swap_interval', 1)
         return c
 
 
@@ -130,6 +133,92 @@ def _make_model(c):
     box = {name: dom for name, kind, dom in c.params if kind in ('box', 'intbox')}
     box.update(c.holes)
     return I.LoggedModel([p[0] for p in c.params], kind=c.model_kind, blobs=c.blobs, box=box)
+
+
+def _verify_step(chain, pnames, ref, x, sx, bx, u, snap, beta, it, bump, bad, level=None):
+    """One real step of `chain` (a Chain, possibly a temperature level BEFORE the swap of that
+    iteration) against the closed form.  x, sx, bx: position, stats, blob before the step; u: the
+    acceptance uniform (None if none was drawn); snap: the proposals as they were when the move was made."""
+    xp = {p: chain.proposed_position[p] for p in pnames}
+    acc = chain.acceptance[-1]
+    ar, accepted = float(acc['acceptance_ratio']), bool(acc['accepted'])
+    rx, rxp = ref(**x), ref(**xp)
+    bump('steps')
+    detail = {'iteration': it + 1, 'x': {k: float(v) for k, v in x.items()},
+              'xprime': {k: float(v) for k, v in xp.items()}, 'beta': beta,
+              'recorded_ar': ar, 'recorded_accepted': accepted, 'uniform': u, 'level': level}
+    if not (_feq(sx['logl'], rx[0]) and _feq(sx['logp'], rx[1])):
+        bad('stale-stats', 'current stats are not the model outputs at the current position', detail)
+    # ---- expected acceptance probability
+    lr_sum = 0.0
+    reported = []
+    for pr in snap:
+        if pr.symmetric:
+            continue
+        bx_ = {p: x[p] for p in pr.parameters}
+        bxp = {p: xp[p] for p in pr.parameters}
+        if all(_feq(bx_[p], bxp[p]) for p in pr.parameters):
+            continue                        # block copied or unchanged: ratio 1
+        rev = float(pr._logpdf(bx_, bxp))   # log q(x | x')
+        fwd = float(pr._logpdf(bxp, bx_))   # log q(x' | x)
+        reported.append((pr.name, rev, fwd))
+        lr_sum += rev - fwd
+    detail['reported_logq'] = reported
+    if rxp[1] == -numpy.inf:
+        bump('forced')
+        want = 0.0
+        if ar != 0.0 or accepted:
+            bad('zero-prior', 'a proposal of zero prior probability was not rejected with ar = 0',
+                dict(detail, expected_ar=0.0))
+        if u is not None:
+            bump('forced_but_drew')
+    else:
+        logar = (Fraction(float(rxp[1])) + Fraction(float(rxp[0])) * Fraction(beta)
+                 - Fraction(float(rx[1])) - Fraction(float(rx[0])) * Fraction(beta))
+        if math.isnan(lr_sum):
+            bump('nan_density')
+            return 'stop'
+        tot = float(logar) + lr_sum
+        want = 1.0 if tot > 0 else math.exp(tot)
+        detail['expected_ar'] = want
+        detail['expected_logar'] = tot
+        scale = abs(float(logar)) + sum(abs(r) + abs(f) for _, r, f in reported)
+        if scale < 1e4:                     # well conditioned: rounding of logar < 1e-11
+            if abs(ar - want) > RTOL * max(want, 1e-300) and not (want < 1e-290 and ar < 1e-290):
+                bad('ar', 'recorded acceptance ratio %r differs from min(1, p\'L\'^b q(x|x\')/(p L^b q(x\'|x))) = %r'
+                    % (ar, want), detail)
+            bump('ar_checked')
+            if reported:
+                bump('ar_checked_nonsymmetric')
+        else:
+            bump('ill_conditioned_skipped')
+        if tot > 1e-9 and u is not None:
+            bump('sure_but_drew')
+        if u is not None:
+            bump('draws')
+            if accepted != (u <= ar):
+                bad('decision', 'accepted = %r but the uniform was %r and ar = %r' % (accepted, u, ar),
+                    detail)
+        elif not accepted or ar != 1.0:
+            bad('decision', 'no uniform was drawn but the step is not a sure accept', detail)
+    # ---- what was recorded
+    pos = {p: chain.positions[-1][p] for p in pnames}
+    sts = chain.stats[-1]
+    if accepted:
+        bump('accepted')
+        ok = all(_feq(pos[p], xp[p]) for p in pnames) and _feq(sts['logl'], rxp[0]) and _feq(sts['logp'], rxp[1])
+        if ok and chain.hasblobs:
+            ok = all(_feq(chain.blobs[-1][k], rxp[2][k]) for k in rxp[2])
+        if not ok:
+            bad('accept-record', 'an accepted step did not record x\' with the model outputs at x\'', detail)
+    else:
+        bump('rejected')
+        ok = all(_feq(pos[p], x[p]) for p in pnames) and _feq(sts['logl'], sx['logl']) and _feq(sts['logp'], sx['logp'])
+        if ok and chain.hasblobs:
+            ok = all(_feq(chain.blobs[-1][k], bx[k]) for k in bx)
+        if not ok:
+            bad('reject-moves', 'a rejected step did not leave the chain exactly where it was', detail)
+    return None
 
 
 def run_oracle_case(c, stats=None):
@@ -189,86 +278,125 @@ def run_oracle_case(c, stats=None):
                     bump('nan_density')
                     break
                 raise
-            xp = {p: chain.proposed_position[p] for p in pnames}
-            acc = chain.acceptance[-1]
-            ar, accepted = float(acc['acceptance_ratio']), bool(acc['accepted'])
-            rx, rxp = ref(**x), ref(**xp)
-            bump('steps')
-            detail = {'iteration': it + 1, 'x': {k: float(v) for k, v in x.items()},
-                      'xprime': {k: float(v) for k, v in xp.items()}, 'beta': c.beta,
-                      'recorded_ar': ar, 'recorded_accepted': accepted, 'uniform': st['u']}
-            if not (_feq(sx['logl'], rx[0]) and _feq(sx['logp'], rx[1])):
-                bad('stale-stats', 'current stats are not the model outputs at the current position', detail)
-            # ---- expected acceptance probability
-            lr_sum = 0.0
-            reported = []
-            for pr in st['snap']:
-                if pr.symmetric:
+            if _verify_step(chain, pnames, ref, x, sx, bx, st['u'], st['snap'], c.beta, it, bump, bad) == 'stop':
+                break
+            if findings:
+                break
+    return findings
+
+
+def run_pt_oracle_case(c, stats=None):
+    """The same oracle on every level of a real ParallelTemperedChain: each level's step is checked
+    BEFORE the swap of that iteration (hook in front of `swap_temperatures`), with the level's own beta
+    and with the state the level holds at that time -- i.e. after whatever earlier sweeps put there."""
+    from epsie.chain import ParallelTemperedChain
+    stats = stats if stats is not None else {}
+    pnames = [p[0] for p in c.params]
+    model, ref = _make_model(c), _make_model(c)
+    prng = random.Random(c.prop_seed)
+    doms = {name: dom for name, kind, dom in c.params}
+    props = [F.make(fam, names, doms, prng, **kw) for fam, names, kw in c.props]
+    fams = '+'.join(sorted({f for f, _, _ in c.props}))
+    g = numpy.random.Generator(numpy.random.PCG64(c.seed))
+    glob = {'in_jump': 0, 'u': None}
+    betas = list(c.pt_betas)
+    nt = len(betas)
+    per = [{'snap': None, 'u': None, 'pre': None, 'stepped': False} for _ in range(nt)]
+
+    def tail(kind):
+        if kind == 'z':
+            return g.standard_normal()
+        u = g.random()
+        if glob['in_jump'] == 0:
+            glob['u'] = u
+        return u
+
+    def bump(k, n=1):
+        stats[k] = stats.get(k, 0) + n
+
+    findings = []
+
+    def bad(kind, text, detail):
+        findings.append(('C01-%s:pt:%s' % (kind, fams), text, dict(detail, case=c.describe())))
+
+    with R.scripted(R.Script(tail=tail, budget=400000)):
+        pt = ParallelTemperedChain(pnames, model, props, betas=numpy.array(betas), swap_interval=c.pt_swap_interval,
+                                   bit_generator=7)
+        srng = random.Random(c.seed ^ 0x51A87)
+        kinds = {name: (kind, dom) for name, kind, dom in c.params}
+        start = {}
+        for name in pnames:
+            kind, dom = kinds[name]
+            which = int(kind[-1]) if kind.startswith('sphere') else 0
+            start[name] = numpy.array([F.start_value('sphere' if kind.startswith('sphere') else kind, dom, srng, which)
+                                       for _ in range(nt)])
+            if name in c.holes:
+                lo, hi = c.holes[name]
+                start[name] = numpy.clip(start[name], lo, hi)
+                if kind == 'int':
+                    start[name] = start[name].astype(int)
+        pt.start_position = start
+        state = {'it': 0, 'stop': False}
+
+        def hook_level(t, l):
+            jp = l.proposal_dist
+            orig_jump, orig_update, orig_step = jp.jump, jp.update, l.step
+
+            def jump(fromx):
+                glob['in_jump'] += 1
+                try:
+                    return orig_jump(fromx)
+                finally:
+                    glob['in_jump'] -= 1
+
+            def update(ch):
+                per[t]['snap'] = [copy.deepcopy(p) for p in jp.proposals]
+                return orig_update(ch)
+
+            def step():
+                x = {p: l.current_position[p] for p in pnames}
+                per[t]['pre'] = (x, dict(l.current_stats), None if not l.hasblobs else dict(l.current_blob))
+                glob['u'] = None
+                r = orig_step()
+                per[t]['u'] = glob['u']
+                per[t]['stepped'] = True
+                return r
+            jp.jump, jp.update, l.step = jump, update, step
+
+        for t, l in enumerate(pt.chains):
+            hook_level(t, l)
+
+        def verify_levels():
+            for t, l in enumerate(pt.chains):
+                if not per[t]['stepped']:
                     continue
-                bx_ = {p: x[p] for p in pr.parameters}
-                bxp = {p: xp[p] for p in pr.parameters}
-                if all(_feq(bx_[p], bxp[p]) for p in pr.parameters):
-                    continue                        # block copied or unchanged: ratio 1
-                rev = float(pr._logpdf(bx_, bxp))   # log q(x | x')
-                fwd = float(pr._logpdf(bxp, bx_))   # log q(x' | x)
-                reported.append((pr.name, rev, fwd))
-                lr_sum += rev - fwd
-            detail['reported_logq'] = reported
-            if rxp[1] == -numpy.inf:
-                bump('forced')
-                want = 0.0
-                if ar != 0.0 or accepted:
-                    bad('zero-prior', 'a proposal of zero prior probability was not rejected with ar = 0',
-                        dict(detail, expected_ar=0.0))
-                if st['u'] is not None:
-                    bump('forced_but_drew')
-            else:
-                logar = (Fraction(float(rxp[1])) + Fraction(float(rxp[0])) * Fraction(c.beta)
-                         - Fraction(float(rx[1])) - Fraction(float(rx[0])) * Fraction(c.beta))
-                if math.isnan(lr_sum):
+                per[t]['stepped'] = False
+                x, sx, bx = per[t]['pre']
+                if _verify_step(l, pnames, ref, x, sx, bx, per[t]['u'], per[t]['snap'], float(betas[t]), state['it'],
+                                bump, bad, level=t) == 'stop':
+                    state['stop'] = True
+                if float(l.beta) != float(betas[t]):
+                    bad('level-beta', 'level %d samples at beta %r, the ladder says %r' % (t, float(l.beta), betas[t]),
+                        {'level': t})
+
+        orig_swap = pt.swap_temperatures
+
+        def swap():
+            verify_levels()            # the levels' records as their own steps left them
+            bump('sweeps')
+            return orig_swap()
+        pt.swap_temperatures = swap
+        for it in range(c.steps):
+            state['it'] = it
+            try:
+                pt.step()
+            except ValueError as e:
+                if 'NaN acceptance' in str(e):
                     bump('nan_density')
                     break
-                tot = float(logar) + lr_sum
-                want = 1.0 if tot > 0 else math.exp(tot)
-                detail['expected_ar'] = want
-                detail['expected_logar'] = tot
-                scale = abs(float(logar)) + sum(abs(r) + abs(f) for _, r, f in reported)
-                if scale < 1e4:                     # well conditioned: rounding of logar < 1e-11
-                    if abs(ar - want) > RTOL * max(want, 1e-300) and not (want < 1e-290 and ar < 1e-290):
-                        bad('ar', 'recorded acceptance ratio %r differs from min(1, p\'L\'^b q(x|x\')/(p L^b q(x\'|x))) = %r'
-                            % (ar, want), detail)
-                    bump('ar_checked')
-                    if reported:
-                        bump('ar_checked_nonsymmetric')
-                else:
-                    bump('ill_conditioned_skipped')
-                if tot > 1e-9 and st['u'] is not None:
-                    bump('sure_but_drew')
-                if st['u'] is not None:
-                    bump('draws')
-                    if accepted != (st['u'] <= ar):
-                        bad('decision', 'accepted = %r but the uniform was %r and ar = %r' % (accepted, st['u'], ar),
-                            detail)
-                elif not accepted or ar != 1.0:
-                    bad('decision', 'no uniform was drawn but the step is not a sure accept', detail)
-            # ---- what was recorded
-            pos = {p: chain.positions[-1][p] for p in pnames}
-            sts = chain.stats[-1]
-            if accepted:
-                bump('accepted')
-                ok = all(_feq(pos[p], xp[p]) for p in pnames) and _feq(sts['logl'], rxp[0]) and _feq(sts['logp'], rxp[1])
-                if ok and chain.hasblobs:
-                    ok = all(_feq(chain.blobs[-1][k], rxp[2][k]) for k in rxp[2])
-                if not ok:
-                    bad('accept-record', 'an accepted step did not record x\' with the model outputs at x\'', detail)
-            else:
-                bump('rejected')
-                ok = all(_feq(pos[p], x[p]) for p in pnames) and _feq(sts['logl'], sx['logl']) and _feq(sts['logp'], sx['logp'])
-                if ok and chain.hasblobs:
-                    ok = all(_feq(chain.blobs[-1][k], bx[k]) for k in bx)
-                if not ok:
-                    bad('reject-moves', 'a rejected step did not leave the chain exactly where it was', detail)
-            if findings:
+                raise
+            verify_levels()            # iterations without a sweep
+            if findings or state['stop']:
                 break
     return findings
 
@@ -283,10 +411,21 @@ def acceptance_oracle(seed, tier, full=False):
             c = gen_oracle_case(rng, families=[fam], steps=steps)
             c.beta = beta
             cases.append(c)
+    # every third case runs as a parallel tempered chain (2-4 levels, sweeps every 1-2 iterations): the
+    # state a level steps from is then what earlier sweeps put there
+    for i, c in enumerate(cases):
+        c.pt_betas = None
+        if i % 3 == 2:
+            prng_ = random.Random(c.seed ^ 0x9A7)
+            c.pt_betas = [1.0] + sorted(prng_.sample(DYADIC_BETAS[:-1] if 1.0 in DYADIC_BETAS else DYADIC_BETAS,
+                                                     prng_.randint(1, 3)), reverse=True)
+            c.pt_betas = [b for j, b in enumerate(c.pt_betas) if j == 0 or b != 1.0]
+            c.pt_swap_interval = prng_.choice([1, 1, 2])
     stats, findings, fam_hist = {}, [], {}
     for c in cases:
         try:
-            f = run_oracle_case(c, stats)
+            f = run_pt_oracle_case(c, stats) if getattr(c, 'pt_betas', None) and len(c.pt_betas) > 1 \
+                else run_oracle_case(c, stats)
         except (R.DrawBudgetExceeded, R.ScriptExhausted):
             stats['stalled'] = stats.get('stalled', 0) + 1
             continue
@@ -590,7 +729,10 @@ def sweep_kernel(seed, tier, full=False):
 def replay(d):
     """Re-run a stored failing input; returns the findings it produces now."""
     if 'case' in d and d['case'].get('search') == 'acceptance-oracle':
-        return run_oracle_case(OracleCase.from_description(d['case']))
+        c_ = OracleCase.from_description(d['case'])
+        if c_.pt_betas and len(c_.pt_betas) > 1:
+            return run_pt_oracle_case(c_)
+        return run_oracle_case(c_)
     cfg = d.get('config') or {}
     if cfg.get('search') == 'exact-kernel':
         return run_lattice(cfg, d.get('N', 20000), betas=(d['beta'],) if 'beta' in d else (0.0, 0.25, 1.0))
